@@ -505,3 +505,12 @@ def REC_VALS(fs: list, ns: dict, w: list, hi: int) -> dict:
     if hi <= 0:
         return {}
     return dset(REC_VALS(fs, ns, w, hi - 1), fs[hi - 1]["name"], VALUE(fs[hi - 1]["type"], ns, w[hi - 1]))
+
+
+@spec
+def READ_OPTS_PLAIN(o: dict) -> bool:
+    """reader options of the plain reading mode: no naming of union branches, and a string
+    as the unicode error handler"""
+    return (not o.get("return_record_name") and not o.get("return_record_name_override")
+            and not o.get("return_named_type") and not o.get("return_named_type_override")
+            and isinstance(o.get("handle_unicode_errors", "strict"), str))
